@@ -86,6 +86,12 @@ CHECKS = {
         note="Answers 1..N-1 are treated as one class (justified by the per-answer check); seam loss is detected by calibration.",
         ref="DESIGN.md section 4 C18",
     ),
+    "C03": dict(
+        technique="exhaustive differential exploration (untraced vs traced run of every tripwire x position workload) with every fault set of size <= 2 injected into the logger, both block exits and both profiler configurations (E4 + E2 fault enumeration)",
+        text="For 16 tripwire kinds at 18 positions, every subset of at most two faults among {log#1, log#2, log#3, flush}, both exits of the traced block and with/without a pre-installed profiler, the workload is run untraced and traced; the complete observation record (journal of every user-level hook incl. finalisers, results, exceptions, stdout) must be identical, no MonkeyType exception may reach the program, the previous profiler must be back and flush must have run exactly once.",
+        note="Observable behaviour = hook journal + results + exceptions + stdout; fault sites are the logger's log/flush calls.",
+        ref="DESIGN.md section 4 C03",
+    ),
 }
 
 NOT_YET = {}
